@@ -191,6 +191,17 @@ func c02Build(c c02Case, vals []opVal) (p *Prog, expectLoadErr bool, ok bool) {
 			}
 		}
 		body = []*rt.Node{rt.Call("add_key", rt.Id("r"), rt.Call("p", e))}
+	case "unbin-l", "unbin-r":
+		// a unary operator applied to one operand of a binary operator, written without parentheses:
+		// the unary operator binds tighter than every binary one
+		uop, bop, _ := strings.Cut(c.Op, " ")
+		var e *rt.Node
+		if c.Form == "unbin-l" {
+			e = rt.Bin(bop, rt.Un(uop, le), re)
+		} else {
+			e = rt.Bin(bop, le, rt.Un(uop, re))
+		}
+		body = []*rt.Node{rt.Call("add_key", rt.Id("r"), rt.Call("p", rt.Normalize(e)))}
 	case "asg":
 		// z = L; z op= R; p(z)
 		body = []*rt.Node{
@@ -507,6 +518,21 @@ func c02Run(w *run.Worker) {
 					continue
 				}
 				c02Cell(w, c02Case{Form: "un", Op: op, L: l, R: l, Src: src}, vals)
+			}
+		}
+	}
+	// (A2) unary under binary, unparenthesised, over variables
+	for _, uop := range c02UnOps {
+		for _, bop := range c02BinOps {
+			for _, form := range []string{"unbin-l", "unbin-r"} {
+				for l := range vals {
+					for r := range vals {
+						if !w.Take() {
+							continue
+						}
+						c02Cell(w, c02Case{Form: form, Op: uop + " " + bop, L: l, R: r, Src: srcVar}, vals)
+					}
+				}
 			}
 		}
 	}
